@@ -2147,11 +2147,13 @@ double BW_MidiSequencer::Tick(double s, double granularity)
 
     if(antiFreezeCounter <= 0)
     {
-        m_currentPosition.wait += 1.0; /* Add extra 1 second when over 10000 events
-                                          with zero delay are been detected */
-        if(m_currentPosition.wait < 1.0)
-            m_currentPosition.wait = 1.0; /* The caller must be able to make progress
-                                             even when far more time than that is owed */
+        /* The wait is counted in song time: one second of real time is that much of it */
+        const double freeze = (m_tempoMultiplier > 1.0) ? m_tempoMultiplier : 1.0;
+        m_currentPosition.wait += freeze; /* Add extra 1 second when over 10000 events
+                                             with zero delay are been detected */
+        if(m_currentPosition.wait < freeze)
+            m_currentPosition.wait = freeze; /* The caller must be able to make progress
+                                                even when far more time than that is owed */
     }
 
     if(m_currentPosition.wait < 0.0) // Avoid negative delay value!
